@@ -26,10 +26,10 @@ attribute [simp] Msg.isRej
 
 @[simp] theorem si_sendMessage (e : Ep) (m : Msg) :
     segInfo (sendMessage e m).emitted = segInfo e.emitted ++ segInfoOf m := by
-  simp [sendMessage, kaReset, idleReset]
+  simp [sendMessage, sendReady, kaReset, idleReset]
 @[simp] theorem rj_sendMessage (e : Ep) (m : Msg) :
     rejsOf (sendMessage e m).emitted = rejsOf e.emitted ++ rejsOf [m] := by
-  simp [sendMessage, kaReset, idleReset]
+  simp [sendMessage, sendReady, kaReset, idleReset]
 
 /-! segments -/
 
